@@ -120,7 +120,7 @@ func c06Alternatives(allPerms bool) []func(*c06Case) {
 		st := st
 		alts = append(alts, func(c *c06Case) { c.Stray = st })
 	}
-	for _, vn := range [][]string{{"x", "y", "z"}, {"a b", "c d", "e"}, {"v[1]", "v[2]", "v[3]"}, {"v*", "w?", "u\\"}, {"vol000+01", "vol001+02", "vol003+99"}, {"par2", "vol.par2", ".."}} {
+	for _, vn := range [][]string{{"x", "y", "z"}, {"a b", "c d", "e"}, {"v[1]", "v[2]", "v[3]"}, {"v*", "w?", "u\\"}, {"vol000+01", "vol001+02", "vol003+99"}, {"par2", "vol.par2", ".."}, {"", "a", "b"}, {"x", "", "y"}} { // "" gives <base>..par2: the '*' of <base>.*.par2 matches nothing
 		vn := vn
 		alts = append(alts, func(c *c06Case) { c.VolNames = vn })
 	}
